@@ -272,6 +272,8 @@ class Queue(Greenlet):
             except IndexError:
                 return
             ret = policy.apply(current)
+            if ret is not None:
+                ret = list(ret)  # May be a generator.
             if ret:
                 results.remove(current)
                 results.extend(ret)
